@@ -236,6 +236,9 @@ func runRepoWalk(c *vk.Ctx, prop string, disk bool, walk []*graph.Edge, seed int
 		if opName(e) == "publish" && json.Unmarshal([]byte(e.To), &to) == nil && to.Origin.Kind == "badsig" {
 			forged = true
 		}
+		if opName(e) == "verify" && json.Unmarshal([]byte(e.To), &to) == nil && to.Lpc == "failed" {
+			forged = true // (a signer record is only written where signatures are verified)
+		}
 	}
 	if !forged {
 		sig = []string{"verify", "none", "verify_log", "none"}[int(uint64(seed)%4)]
@@ -274,7 +277,7 @@ func runRepoWalk(c *vk.Ctx, prop string, disk bool, walk []*graph.Edge, seed int
 			rr.prevDoc = keyStr(from.LiveDoc.Keys)
 			rr.sawNew = map[string]bool{}
 			rw.fault.mu.Lock()
-			rw.fault.failCreate, rw.fault.failInsertN, rw.fault.failUpdate = false, 0, false
+			rw.fault.failCreate, rw.fault.failInsertN, rw.fault.failUpdate, rw.fault.failSigner = false, 0, false, false
 			rw.fault.mu.Unlock()
 			if to.Kind == "first" {
 				rr.next = rw.run(func() { rw.w.Handshake(rw.chains["driver"]) })
@@ -346,6 +349,11 @@ func runRepoWalk(c *vk.Ctx, prop string, disk bool, walk []*graph.Edge, seed int
 				if name == "parse" && (to.Fetched.Kind == "good" || to.Fetched.Kind == "badsig") {
 					rw.fault.mu.Lock()
 					rw.fault.failInsertN = 1 + rr.rng.Intn(300)
+					rw.fault.mu.Unlock()
+				}
+				if name == "verify" && to.Fetched.Kind == "good" {
+					rw.fault.mu.Lock()
+					rw.fault.failSigner = true
 					rw.fault.mu.Unlock()
 				}
 				if name == "swapFault" {
@@ -916,6 +924,12 @@ func guidedWalk(g *graph.Graph, init string, plans []runPlan) []*graph.Edge {
 					wantFail = true
 				}
 				for _, b := range bad {
+					if p.Inject == "signerErr" && opName(b) == "verify" {
+						wantFail = true
+						bad[0] = b
+					}
+				}
+				for _, b := range bad {
 					if p.Inject == "swapErr" && opName(b) == "swapFault" {
 						wantFail = true
 						bad[0] = b
@@ -979,6 +993,7 @@ func repoScenarios(rng *rand.Rand, thorough bool) [][]runPlan {
 		{Kind: "good", Keys: []string{"y", "z"}, Inject: "stageErr"},
 		{Kind: "good", Keys: []string{"y", "z"}, Inject: "insertErr"},
 		{Kind: "good", Keys: []string{"y", "z"}, Inject: "swapErr"},
+		{Kind: "good", Keys: []string{"y", "z"}, Inject: "signerErr"},
 		{Kind: "good", Keys: []string{}},
 		{Kind: "good", Keys: []string{"x", "y", "z"}},
 	}
